@@ -154,6 +154,8 @@ Section Step.
         if name_ok (tv t) && negb indef then
           let (s1, v) := pop1 s in XOk (set_vars s1 (assign (tv t) v (vars s1)))
         else XErr ENotCore
+    | KString | KCharacter | KCompString =>                       (* stack.append("<text>") / stack.append('<c>') *)
+        match string_value t with Some v => XOk (push (VStr v) s) | None => XErr ENotCore end
     | _ => XErr ENotCore
     end.
 
